@@ -700,3 +700,78 @@ def rule_sentinel_store(ctx: Ctx, prog: Program) -> None:
                           f"{fn.name} stores `{ast.unparse(bad)[:60]}` before it has tested that the scan found a candidate: when none is left the local still "
                           "holds +/- sys.maxsize, which compiled code truncates into the 32-bit cell silently while interpreted code raises OverflowError")
     ctx.floor("R-SENTINEL-STORE:scans-with-sentinels", n, 2)
+
+
+# ------------------------------------------------------------------------------------------ R-STATUS-USED
+STATUS_REGISTRIES = ("CONSISTENCY_ALG_FCTS", "COMPUTE_DOMAINS_FCTS")
+
+
+def rule_status_used(ctx: Ctx, prog: Program) -> None:
+    """A consistency algorithm and a filtering function answer with a status (inconsistent / consistent / entailed / solved).  A caller that
+    discards the answer carries on with domains the callee has just found empty: the search then reports an assignment that violates the
+    constraint that objected (and an optimisation returns it instead of None).  Rule (the 'unused result' check, with the checked functions
+    read off the package's own registries): a call whose callee is an entry of CONSISTENCY_ALG_FCTS / COMPUTE_DOMAINS_FCTS -- by name,
+    through the registry, or through function_from_address(TYPE_...) -- is never an expression statement, and a name it is assigned to is
+    read afterwards."""
+    ctx.rule("R-STATUS-USED")
+    checked: Set[str] = set()
+    for rn in STATUS_REGISTRIES:
+        reg = prog.registry(rn)
+        for e in list(reg.entries) + list(reg.extra):
+            if isinstance(e, FuncInfo):
+                checked.add(e.name)
+    types = {t for t, r in prog.dispatch_types().items() if r in STATUS_REGISTRIES}
+    if len(checked) < 10 or not types:
+        raise AnalysisError(f"R-STATUS-USED: only {len(checked)} status-returning functions / {len(types)} dispatch types found")
+    n = 0
+    for f in prog.all_functions():
+        if ".tests" in f.module:
+            continue
+        parents: Dict[int, ast.AST] = {}
+        for x in ast.walk(f.node):
+            for c in ast.iter_child_nodes(x):
+                parents[id(c)] = x
+        # locals holding a status-returning callee
+        callee_vars: Set[str] = set()
+        for x in ast.walk(f.node):
+            if isinstance(x, ast.Assign) and len(x.targets) == 1 and isinstance(x.targets[0], ast.Name):
+                src = ast.unparse(x.value)
+                if any(f"{r}[" in src for r in STATUS_REGISTRIES) or any(f"function_from_address({t}," in src.replace("\n", "") for t in types):
+                    callee_vars.add(x.targets[0].id)
+        for x in ast.walk(f.node):
+            if not isinstance(x, ast.Call):
+                continue
+            fsrc = ast.unparse(x.func)
+            is_status = (isinstance(x.func, ast.Name) and (x.func.id in checked or x.func.id in callee_vars)) \
+                or (isinstance(x.func, ast.Subscript) and isinstance(x.func.value, ast.Name) and x.func.value.id in STATUS_REGISTRIES) \
+                or (isinstance(x.func, ast.Call) and ast.unparse(x.func.func).endswith("function_from_address") and x.func.args and ast.unparse(x.func.args[0]) in types)
+            if not is_status:
+                continue
+            n += 1
+            par = parents.get(id(x))
+            bad = None
+            if isinstance(par, ast.Expr):
+                bad = "is an expression statement: its answer is dropped"
+            elif isinstance(par, ast.Assign) and len(par.targets) == 1 and isinstance(par.targets[0], ast.Name):
+                nm = par.targets[0].id
+                read = any(isinstance(y, ast.Name) and y.id == nm and isinstance(y.ctx, ast.Load) and (y.lineno, y.col_offset) > (par.lineno, par.col_offset) for y in ast.walk(f.node))
+                in_loop = any(isinstance(parents.get(id(z)), (ast.For, ast.While)) or isinstance(z, (ast.For, ast.While)) for z in _ancestors(parents, par))
+                if not read and not (in_loop and any(isinstance(y, ast.Name) and y.id == nm and isinstance(y.ctx, ast.Load) for y in ast.walk(f.node))):
+                    bad = f"is stored in '{nm}', which is never read"
+            if bad:
+                ctx.violation("R-STATUS-USED", f.path, f.qualname, f"status-discarded:{fsrc[:40]}", f"{f.path}:{x.lineno}",
+                              f"{f.qualname}: the call of `{fsrc[:60]}` (a consistency algorithm / filtering function: it answers inconsistent, consistent, entailed or "
+                              f"solved) {bad}. An inconsistency it found goes unnoticed: the caller continues with an empty domain and what it then reports "
+                              "(a solution, an optimum, a bound) need not satisfy the constraints")
+            else:
+                ctx.ok("R-STATUS-USED", f"{f.qualname}: the status answered by `{fsrc[:50]}` is used", nontrivial=False)
+    ctx.floor("R-STATUS-USED:status-returning-calls", n, 4)
+
+
+def _ancestors(parents: Dict[int, ast.AST], node: ast.AST) -> List[ast.AST]:
+    out: List[ast.AST] = []
+    cur = parents.get(id(node))
+    while cur is not None:
+        out.append(cur)
+        cur = parents.get(id(cur))
+    return out
